@@ -122,6 +122,10 @@ type sessionCase struct {
 	honest   bool   // after TLS: honest SASL+bind script
 	tee      bool
 	extraDbl bool // an extra double that needs Secure
+	// beforeProceed, when set, is called by the peer after it has read the
+	// client's <starttls/> and before it answers <proceed/> (used to overlap
+	// several sessions that share one feature value)
+	beforeProceed func()
 }
 
 type tcase struct {
@@ -302,6 +306,9 @@ func runSession(sc sessionCase, feature xmpp.StreamFeature, forceTee *bool) sres
 			return
 		}
 		proceed := `<proceed xmlns="` + tlsNS + `"/>`
+		if sc.beforeProceed != nil {
+			sc.beforeProceed()
+		}
 		switch sc.after {
 		case "garbage":
 			feedClear(proceed + "this is not a TLS record")
@@ -593,4 +600,93 @@ func TestC02StartTLS(t *testing.T) {
 		ev.Case(nt, tc.String(), classes...)
 		check(rt, tc)
 	})
+}
+
+// TestC02SharedOverlap: one StartTLS feature value negotiated by several
+// sessions AT THE SAME TIME (each waits for <proceed/> while the others enter
+// negotiation): every handshake must still name its own session's domain.
+func TestC02SharedOverlap(t *testing.T) {
+	domains := []string{"example.net", "example.org", "im.example.com"}
+	ev.Check(t, 150, 1500, func(rt *rapid.T) {
+		n := rapid.IntRange(2, 3).Draw(rt, "nsessions")
+		nilCfg := rapid.IntRange(0, 3).Draw(rt, "nilcfg") > 0
+		order := rapid.Permutation(seq(n)).Draw(rt, "release-order")
+		together := rapid.Bool().Draw(rt, "release-together")
+		doms := rapid.Permutation(domains).Draw(rt, "domains")[:n]
+		desc := fmt.Sprintf("overlapping sessions: StartTLS(cfg nil=%v) shared by %v; <proceed/> released in order %v (all at once=%v)", nilCfg, doms, order, together)
+		ev.Case(true, desc, "overlap", fmt.Sprintf("overlap-%d", n))
+		var cfg *tls.Config
+		if !nilCfg {
+			cfg = &tls.Config{RootCAs: rootPool, ServerName: "example.net", MinVersion: tls.VersionTLS12}
+		}
+		feature := xmpp.StartTLS(cfg)
+		var arrived sync.WaitGroup
+		arrived.Add(n)
+		release := make([]chan struct{}, n)
+		results := make([]sresult, n)
+		var done sync.WaitGroup
+		for i := 0; i < n; i++ {
+			release[i] = make(chan struct{})
+			i := i
+			sc := sessionCase{domain: doms[i], first: "required", answer: "proceed", after: "tls", honest: false,
+				beforeProceed: func() {
+					arrived.Done()
+					select {
+					case <-release[i]:
+					case <-time.After(10 * time.Second):
+					}
+				}}
+			done.Add(1)
+			go func() {
+				defer done.Done()
+				results[i] = runSession(sc, feature, nil)
+			}()
+		}
+		allArrived := make(chan struct{})
+		go func() { arrived.Wait(); close(allArrived) }()
+		select {
+		case <-allArrived:
+		case <-time.After(10 * time.Second):
+			for i := range release {
+				close(release[i])
+			}
+			done.Wait()
+			ev.Class("inconclusive-harness-timeout")
+			return
+		}
+		for _, i := range order {
+			close(release[i])
+			if !together {
+				time.Sleep(3 * time.Millisecond)
+			}
+		}
+		done.Wait()
+		for i, r := range results {
+			if r.panicked != "" {
+				ev.Failf(rt, "%s\nsession %d panicked: %s", desc, i, r.panicked)
+			}
+			if !r.sawHello {
+				continue
+			}
+			want := doms[i]
+			if !nilCfg {
+				want = "example.net"
+			}
+			if r.sni != want {
+				ev.Failf(rt, "%s\nsession %d (own domain %q): TLS ClientHello names %q, want %q (err=%v)", desc, i, doms[i], r.sni, want, r.err)
+			}
+			if msg := clearTextOK(r.clear); msg != "" {
+				ev.Failf(rt, "%s\nsession %d: %s", desc, i, msg)
+			}
+			ev.Class("overlap-handshake-started")
+		}
+	})
+}
+
+func seq(n int) []int {
+	s := make([]int, n)
+	for i := range s {
+		s[i] = i
+	}
+	return s
 }
